@@ -115,6 +115,9 @@ type Spec struct {
 	MethodWrapOff map[string]bool
 	Shared        map[int]*node // named structs used identically on both sides
 	NConts        map[int]*node // named container on ONE side, its unnamed form on the other
+	// SelfRefs: id → "slice" | "map": a named type that refers to itself (type Rec3 []Rec3),
+	// the same type on both sides.
+	SelfRefs map[int]string
 	Unexported    bool          // some shared struct carries unexported fields → goverter:ignoreUnexported
 	HasOptional   bool
 	PtrRoot       map[int]bool
@@ -159,6 +162,7 @@ func NewSpec(seed uint64, prop string) *Spec {
 	s.MatchIgnoreCase = prop == "C07" && r.IntN(3) == 0
 	s.Shared = map[int]*node{}
 	s.NConts = map[int]*node{}
+	s.SelfRefs = map[int]string{}
 	s.SkipCopyMode = "none"
 	if prop == "C04" {
 		switch r.IntN(6) {
@@ -409,6 +413,13 @@ func (s *Spec) genStruct(depth int) *node {
 		// it ever convert such positions by itself, the dynamic value must not be shared
 		n.Fields = append(n.Fields, &field{Optional: true, OptKind: "any", Name: fmt.Sprintf("F%d", len(n.Fields)), TName: fmt.Sprintf("F%d", len(n.Fields)), N: &node{Kind: "basic", Basic: "any"}})
 		s.HasOptional = true
+	}
+	if s.Prop == "C04" && s.Seed%3 == 0 && depth == 0 {
+		// a self-referential named type (a rose tree / nested dictionary): copied by a
+		// sub-method that calls itself
+		id := s.id()
+		s.SelfRefs[id] = []string{"slice", "map"}[int(s.Seed/3)%2]
+		n.Fields = append(n.Fields, &field{Name: fmt.Sprintf("F%d", len(n.Fields)), TName: fmt.Sprintf("F%d", len(n.Fields)), N: &node{Kind: "selfref", ID: id}})
 	}
 	if s.Prop == "C04" && s.rng.IntN(8) == 0 {
 		// unsafe.Pointer: a basic type for go/types whose value is a pointer
@@ -707,6 +718,8 @@ func (s *Spec) expr(n *node, side string) string {
 		return fmt.Sprintf("SE%d", n.ID)
 	case "sonly":
 		return fmt.Sprintf("SAuto%d", n.ID)
+	case "selfref":
+		return fmt.Sprintf("Rec%d", n.ID)
 	case "ptr":
 		return "*" + s.expr(n.Elem, side)
 	case "shared":
@@ -813,6 +826,13 @@ func (s *Spec) TypesSource() string {
 	}
 	for _, id := range sortedIDs(s.NConts) {
 		fmt.Fprintf(&b, "type NC%d %s\n", id, s.expr(s.NConts[id].Elem, "S"))
+	}
+	for _, id := range sortedIDs(s.SelfRefs) {
+		if s.SelfRefs[id] == "map" {
+			fmt.Fprintf(&b, "type Rec%d map[string]Rec%d\n", id, id)
+		} else {
+			fmt.Fprintf(&b, "type Rec%d []Rec%d\n", id, id)
+		}
 	}
 	for _, id := range sortedIDs(s.Shared) {
 		n := s.Shared[id]
